@@ -12,6 +12,7 @@ import (
 	"sort"
 	"strings"
 	"sync"
+	"sync/atomic"
 	"time"
 
 	"github.com/bfenetworks/bfe/bfe_fcgi"
@@ -135,11 +136,19 @@ func c55Payload(c *c55Case) []byte {
 type c55Recording struct {
 	req      *fcgi.Request
 	err      string // malformed record / protocol violation / stream not terminated
+	timeout  bool   // err is an idle timeout (not a sound verdict by itself)
 	rawBytes int
 }
 
+// c55Idle is a watchdog, not an oracle: a timeout is only turned into a
+// verdict by the EOF-delimited probe (c55Probe).
+const c55Idle = 8 * time.Second
+
+var c55Timeouts int64 // idle timeouts seen in this run
+
 type c55Job struct {
 	c      *c55Case
+	probe  bool // record until the client closes the connection; no reply
 	res    chan c55Recording
 	cancel chan struct{}
 }
@@ -191,17 +200,18 @@ func (rs *c55Responder) serve(conn net.Conn, j *c55Job) {
 		case <-done:
 		}
 	}()
-	conn.SetDeadline(time.Now().Add(20 * time.Second))
 	var rec c55Recording
 	dec := &fcgi.RequestDecoder{}
 	var buf []byte
 	tmp := c55BufPool.Get().([]byte)
 	defer c55BufPool.Put(tmp)
-	for !dec.Done() && rec.err == "" {
+	for rec.err == "" {
+		// idle deadline: only the absence of any progress for c55Idle ends the wait
+		conn.SetReadDeadline(time.Now().Add(c55Idle))
 		n, err := conn.Read(tmp)
 		rec.rawBytes += n
 		buf = append(buf, tmp[:n]...)
-		for rec.err == "" && !dec.Done() {
+		for rec.err == "" {
 			r, used, perr := fcgi.ParseRecord(buf)
 			if perr == fcgi.ErrIncomplete {
 				break
@@ -210,22 +220,39 @@ func (rs *c55Responder) serve(conn net.Conn, j *c55Job) {
 				rec.err = "malformed record: " + perr.Error()
 				break
 			}
+			if dec.Done() {
+				rec.err = fmt.Sprintf("record of type %d after both streams were closed", r.Type)
+				break
+			}
 			buf = buf[used:]
 			if ferr := dec.Feed(r); ferr != nil {
 				rec.err = "protocol: " + ferr.Error()
 			}
 		}
-		if err != nil && !dec.Done() && rec.err == "" {
-			rec.err = fmt.Sprintf("streams not terminated (PARAMS/STDIN) when the connection ended: %v; %d bytes left undecoded", err, len(buf))
+		if rec.err != "" || (dec.Done() && !j.probe && len(buf) == 0) {
+			break
 		}
-	}
-	if rec.err == "" && len(buf) != 0 {
-		rec.err = fmt.Sprintf("%d bytes after the end of the request", len(buf))
+		if err != nil {
+			if dec.Done() && len(buf) == 0 {
+				break // probe mode: clean end of the connection after a complete request
+			}
+			state := fmt.Sprintf("PARAMS closed=%v, STDIN closed=%v, %d bytes left undecoded", dec.ParamsDone(), dec.StdinDone(), len(buf))
+			if dec.Done() {
+				rec.err = fmt.Sprintf("%d stray bytes after the end of the request", len(buf))
+				break
+			}
+			if ne, ok := err.(net.Error); ok && ne.Timeout() {
+				rec.timeout = true
+				rec.err = fmt.Sprintf("idle-timeout: nothing received for %v with the request incomplete (%s)", c55Idle, state)
+			} else {
+				rec.err = fmt.Sprintf("streams not terminated when the client closed the connection (%v): %s", err, state)
+			}
+		}
 	}
 	rq := dec.Req
 	rec.req = &rq
 	j.res <- rec
-	if rec.err != "" {
+	if rec.err != "" || j.probe {
 		return
 	}
 	// play the script
@@ -495,7 +522,41 @@ func c55HasStderr(c *c55Case) bool {
 	return false
 }
 
+// c55Probe sends the client-level request with FCGIClient.Do (which returns
+// once everything is written) and closes the connection; the responder
+// records until EOF, so "stream not terminated" needs no timing argument.
+func c55Probe(rs *c55Responder, c *c55Case, body []byte) (rec c55Recording, err error) {
+	job := &c55Job{c: c, probe: true, res: make(chan c55Recording, 1), cancel: make(chan struct{})}
+	rs.jobs <- job
+	defer close(job.cancel)
+	defer func() {
+		if e := recover(); e != nil {
+			err = fmt.Errorf("panic in probe: %v", e)
+		}
+	}()
+	cl, derr := bfe_fcgi.Dial(rs.network, rs.addr)
+	if derr != nil {
+		return rec, derr
+	}
+	_, derr = cl.Do(c55ParamMap(c), bytes.NewReader(body))
+	cl.Close()
+	if derr != nil {
+		return rec, derr
+	}
+	select {
+	case rec = <-job.res:
+		return rec, nil
+	case <-time.After(60 * time.Second):
+		return rec, fmt.Errorf("probe recording did not arrive")
+	}
+}
+
 func c55Run(r *vkit.Run, pool *c55Pool, c *c55Case) {
+	if atomic.LoadInt64(&c55Timeouts) >= 6 {
+		// every further case would wait for the idle watchdog again
+		r.Count("skipped_after_repeated_timeouts", 1)
+		return
+	}
 	ch := pool.unix
 	if c.Net == "tcp" {
 		ch = pool.tcp
@@ -596,6 +657,25 @@ func c55Run(r *vkit.Run, pool *c55Pool, c *c55Case) {
 	}
 	r.Count("requests_recorded", 1)
 	// ---- request side
+	if rec.timeout {
+		atomic.AddInt64(&c55Timeouts, 1)
+		r.Count("responder_idle_timeouts", 1)
+		if c.Level != "client" {
+			r.Inconclusive("transport-level request incomplete after idle timeout (no EOF-delimited probe possible): " + rec.err)
+			return
+		}
+		// sound re-check: write the same request with Do() and close the connection
+		prec, perr := c55Probe(rs, c, body)
+		if perr != nil {
+			r.Inconclusive("probe failed: " + perr.Error())
+			return
+		}
+		if prec.err == "" {
+			r.Inconclusive("responder idle timeout although the EOF-delimited probe decoded a complete request (machine too slow?)")
+			return
+		}
+		rec = prec
+	}
 	if rec.err != "" {
 		sig := "records:malformed"
 		if strings.HasPrefix(rec.err, "streams not terminated") {
